@@ -92,6 +92,31 @@ type STag struct {
 const twinOff = 100
 const delTime = "2020-02-02 02:02:02"
 
+// Key layout of the twin tables: the soft-deleted twins always hold the keys 101..199; the live rows hold 1..99
+// (liveBase 0: every twin has the HIGHER key) or 201..299 (liveBase 200: every twin has the LOWER key, so whatever
+// takes "the first record by primary key" meets the marked row first). Chosen per case.
+var liveBase int64
+
+func twinOf(id int64) int64 { return id - liveBase + twinOff }
+func isTwin(id int64) bool  { return id > twinOff && id < 2*twinOff }
+
+const notTwinSQL = "NOT (id > 100 AND id < 200)"
+
+func shiftTable(rows []pred.Row) []pred.Row {
+	out := append([]pred.Row(nil), rows...)
+	for i := range out {
+		out[i].ID += liveBase
+	}
+	return out
+}
+
+func layoutNote() string {
+	if liveBase == 0 {
+		return "every live row (ids 1..) has a soft-deleted twin with id+100"
+	}
+	return "every live row (ids 201..) has a soft-deleted twin with id-100 (the twin has the lower key)"
+}
+
 var H *vdb.Handle
 
 func initEnv(c *core.Ctx) {
@@ -128,7 +153,7 @@ func load(rows []pred.Row) {
 			t = *r.T
 		}
 		_, err = H.SQL.Exec("INSERT INTO srws(id,a,b,s,t,mark,deleted_at) VALUES (?,?,?,?,?,0,NULL),(?,?,?,?,?,0,?)",
-			r.ID, r.A, b, r.S, t, r.ID+twinOff, r.A, b, r.S, t, delTime)
+			r.ID, r.A, b, r.S, t, twinOf(r.ID), r.A, b, r.S, t, delTime)
 		must(err)
 	}
 }
@@ -148,7 +173,10 @@ func onlyTwins(d []string) []string {
 }
 
 var paths = []string{"Find", "FindInline", "First", "Last", "Take", "Count", "Pluck", "Scan", "Rows", "FindInBatches", "CountThenFind", "CountThenPluck",
-	"Update", "Updates", "UpdateColumn", "Delete", "UnscopedFind", "UnscopedCount", "UnscopedDelete", "UnscopedUpdate", "UnscopedBatchesNested"}
+	"Update", "Updates", "UpdateColumn", "Delete", "UnscopedFind", "UnscopedCount", "UnscopedDelete", "UnscopedUpdate", "UnscopedBatchesNested",
+	// finishers that pick one record by primary key and, for FirstOrCreate, follow the read with a write of their own
+	"FirstOrInit", "UnscopedFirstOrInit", "UnscopedFirst", "UnscopedLast",
+	"FirstOrCreate", "FirstOrCreateAssign", "FirstOrCreateAssign", "UnscopedFirstOrCreate", "UnscopedFirstOrCreateAssign", "UnscopedFirstOrCreateAssign"}
 
 type chain struct {
 	steps []pred.GroupStep
@@ -223,7 +251,7 @@ func build(cc chain, db *gorm.DB) *gorm.DB {
 func hasTwin(ids []int64) []int64 {
 	var out []int64
 	for _, id := range ids {
-		if id >= twinOff {
+		if isTwin(id) {
 			out = append(out, id)
 		}
 	}
@@ -466,7 +494,7 @@ func runChain(c *core.Ctx, cc chain, table []pred.Row) (problems []string, nontr
 			if n := physCount(); n != phys {
 				add("physical row count changed %d -> %d on a scoped Delete", phys, n)
 			}
-			marked := vdb.Ints(H.SQL, "SELECT id FROM srws WHERE id < 100 AND deleted_at IS NOT NULL ORDER BY id")
+			marked := vdb.Ints(H.SQL, "SELECT id FROM srws WHERE "+notTwinSQL+" AND deleted_at IS NOT NULL ORDER BY id")
 			if !firstIsOr && !pred.IDsEqual(marked, want) {
 				add("marked ids %v, live matches %v", marked, want)
 			}
@@ -486,19 +514,133 @@ func runChain(c *core.Ctx, cc chain, table []pred.Row) (problems []string, nontr
 			}
 			nontrivial = len(want) > 0
 		}
+	case "FirstOrInit", "UnscopedFirstOrInit", "UnscopedFirst", "UnscopedLast":
+		// one record by primary key: the lowest (highest) key among the rows the handle sees - live matches, and
+		// with Unscoped their marked twins as well
+		uns := strings.HasPrefix(cc.path, "Unscoped")
+		vis := want
+		db := root
+		if uns {
+			vis = withTwins(want)
+			if c.R.Bool() {
+				db = build(cc, db.Unscoped())
+			} else {
+				db = build(cc, db).Unscoped()
+			}
+		} else {
+			db = build(cc, db)
+		}
+		var out SRow
+		var res *gorm.DB
+		switch strings.TrimPrefix(cc.path, "Unscoped") {
+		case "First":
+			res = db.First(&out)
+		case "Last":
+			res = db.Last(&out)
+		default:
+			res = db.FirstOrInit(&out)
+		}
+		notFound := errors.Is(res.Error, gorm.ErrRecordNotFound) || (res.Error == nil && out.ID == 0)
+		if res.Error != nil && !notFound {
+			add("error: %v", res.Error)
+		} else if !notFound && !uns && isTwin(out.ID) {
+			add("soft-deleted id %d returned (live matches %v)", out.ID, want)
+		} else if !firstIsOr {
+			exp := int64(0)
+			if len(vis) > 0 {
+				exp = vis[0]
+				if cc.path == "UnscopedLast" {
+					exp = vis[len(vis)-1]
+				}
+			}
+			if out.ID != exp {
+				add("%s returned id %d (0 = none), want %d: the rows this handle sees and the chain selects are %v", cc.path, out.ID, exp, vis)
+			}
+		}
+		nontrivial = len(want) > 0
+	case "FirstOrCreate", "FirstOrCreateAssign", "UnscopedFirstOrCreate", "UnscopedFirstOrCreateAssign":
+		// read-then-write in one finisher: the record found is the lowest key among the rows the handle sees, and the
+		// update that stores the Assign values is issued by gorm itself - it has to see the same rows as the read
+		mutated = true
+		uns := strings.HasPrefix(cc.path, "Unscoped")
+		assign := strings.HasSuffix(cc.path, "Assign")
+		vis := want
+		db := root
+		unsLast := false
+		if uns {
+			vis = withTwins(want)
+			if unsLast = c.R.Bool(); !unsLast {
+				db = db.Unscoped()
+			}
+		}
+		db = build(cc, db)
+		how := ""
+		if assign {
+			if c.R.Bool() {
+				db = db.Assign(map[string]interface{}{"mark": 7})
+				how = "Assign(map[mark:7])"
+			} else {
+				db = db.Assign(SRow{Mark: 7})
+				how = "Assign(SRow{Mark:7})"
+			}
+		} else if c.R.Bool() {
+			db = db.Attrs(map[string]interface{}{"mark": 7}) // only used when a record is created
+			how = "Attrs(map[mark:7])"
+		}
+		if unsLast {
+			db = db.Unscoped()
+			how += ".Unscoped()"
+		}
+		var out SRow
+		res := db.FirstOrCreate(&out)
+		hasOr := false
+		for _, s := range cc.steps {
+			hasOr = hasOr || s.Op == "or"
+		}
+		n := physCount()
+		switch {
+		case firstIsOr:
+			// only the generic checks below
+		case len(vis) == 0:
+			// nothing matches, marked or not: a record is created (its values are not this property's subject)
+			if res.Error != nil {
+				c.Inc("firstorcreate_create_error")
+			} else if n != phys+1 {
+				add("%s %s: no row matches, physical row count %d -> %d, want one created row", cc.path, how, phys, n)
+			}
+		case res.Error != nil:
+			add("error: %v", res.Error)
+		default:
+			if n != phys {
+				add("%s %s: physical row count %d -> %d although the handle sees matching rows %v", cc.path, how, phys, n, vis)
+			}
+			if out.ID != vis[0] {
+				add("%s %s returned id %d, want %d: the rows this handle sees and the chain selects are %v", cc.path, how, out.ID, vis[0], vis)
+			}
+			changed := vdb.Ints(H.SQL, "SELECT id FROM srws WHERE mark = 7 ORDER BY id")
+			if assign {
+				stored := false
+				for _, id := range changed {
+					stored = stored || id == vis[0]
+				}
+				if !stored {
+					add("%s %s found record %d (soft-deleted: %v) and returned mark=%d, but the stored row does not hold the assigned value (RowsAffected=%d; rows holding it: %v)", cc.path, how, vis[0], isTwin(vis[0]), out.Mark, res.RowsAffected, changed)
+				}
+				if !hasOr && len(changed) > 1 {
+					add("%s %s stored the assigned value in rows %v, the record found is %d", cc.path, how, changed, vis[0])
+				}
+			} else if len(changed) > 0 {
+				add("%s %s changed rows %v although a record was found and nothing was assigned", cc.path, how, changed)
+			}
+		}
+		nontrivial = len(want) > 0
 	case "UnscopedFind":
 		var out []SRow
 		res := build(cc, root.Unscoped()).Find(&out)
 		if res.Error != nil {
 			add("error: %v", res.Error)
 		} else if !firstIsOr {
-			var exp []int64
-			for _, id := range want {
-				exp = append(exp, id)
-			}
-			for _, id := range want {
-				exp = append(exp, id+twinOff)
-			}
+			exp := withTwins(want)
 			got := pred.SortIDs(idsOf(out))
 			if !pred.IDsEqual(got, exp) {
 				add("Unscoped ids %v, want live+twin %v", got, exp)
@@ -522,11 +664,7 @@ func runChain(c *core.Ctx, cc chain, table []pred.Row) (problems []string, nontr
 				add("error: %v", res.Error)
 			} else if !firstIsOr {
 				changed := vdb.Ints(H.SQL, "SELECT id FROM srws WHERE mark = 7 ORDER BY id")
-				var exp []int64
-				exp = append(exp, want...)
-				for _, id := range want {
-					exp = append(exp, id+twinOff)
-				}
+				exp := withTwins(want)
 				if !pred.IDsEqual(changed, exp) {
 					add("Unscoped Update changed %v, want %v", changed, exp)
 				}
@@ -639,7 +777,8 @@ func loadAssoc(r *core.Rand) assocData {
 
 var assocPaths = []string{"PreloadItems", "PreloadItemsCond", "PreloadNested", "PreloadAll", "PreloadPet", "PreloadTags", "JoinsBoss", "InnerJoinsBoss", "JoinsPet",
 	"AssocFindItems", "AssocCountItems", "AssocFindTags", "AssocCountTags", "AssocFindPet", "PreloadUnscoped", "UnscopedJoinsBoss", "UnscopedInnerJoinsBoss", "UnscopedJoinsPet", "JoinsPetCond", "JoinsBossCond",
-	"JoinsPreloadBelow", "UnscopedJoinsPreloadBelow", "UnscopedPreloadNestedBelow"}
+	"JoinsPreloadBelow", "UnscopedJoinsPreloadBelow", "UnscopedPreloadNestedBelow",
+	"UnscopedAssocFindItems", "UnscopedAssocCountItems", "UnscopedAssocFindPet", "UnscopedAssocFindTags", "UnscopedAssocCountTags"}
 
 func itemIDs(xs []SItem) []int64 {
 	out := make([]int64, len(xs))
@@ -1156,6 +1295,42 @@ func runAssoc(c *core.Ctx, path string, d assocData) (problems []string) {
 				if n != int64(len(d.liveTags[o])) {
 					add("Association(Tags).Count of owner %d = %d, live %d", o, n, len(d.liveTags[o]))
 				}
+			case "UnscopedAssocFindItems":
+				// association lookups through an Unscoped handle: the marked rows are visible again
+				var items []SItem
+				if err := root.Unscoped().Model(&ow).Association("Items").Find(&items); err != nil {
+					add("error: %v", err)
+					continue
+				}
+				eq("Unscoped Association(Items).Find", o, itemIDs(items), vdb.Ints(H.SQL, "SELECT id FROM s_items WHERE owner_id = ? ORDER BY id", o))
+			case "UnscopedAssocCountItems":
+				n := root.Unscoped().Model(&ow).Association("Items").Count()
+				if w := vdb.Ints(H.SQL, "SELECT count(*) FROM s_items WHERE owner_id = ?", o)[0]; n != w {
+					add("Unscoped Association(Items).Count of owner %d = %d, stored rows (live and marked) %d", o, n, w)
+				}
+			case "UnscopedAssocFindPet":
+				var pets []SPet
+				if err := root.Unscoped().Model(&ow).Association("Pet").Find(&pets); err != nil {
+					add("error: %v", err)
+					continue
+				}
+				var got []int64
+				for _, p := range pets {
+					got = append(got, p.ID)
+				}
+				eq("Unscoped Association(Pet).Find", o, pred.SortIDs(got), vdb.Ints(H.SQL, "SELECT id FROM s_pets WHERE owner_id = ? ORDER BY id", o))
+			case "UnscopedAssocFindTags":
+				var tags []STag
+				if err := root.Unscoped().Model(&ow).Association("Tags").Find(&tags); err != nil {
+					add("error: %v", err)
+					continue
+				}
+				eq("Unscoped Association(Tags).Find", o, tagIDs(tags), vdb.Ints(H.SQL, "SELECT s_tag_id FROM owner_tags WHERE owner_id = ? ORDER BY s_tag_id", o))
+			case "UnscopedAssocCountTags":
+				n := root.Unscoped().Model(&ow).Association("Tags").Count()
+				if w := vdb.Ints(H.SQL, "SELECT count(*) FROM owner_tags WHERE owner_id = ?", o)[0]; n != w {
+					add("Unscoped Association(Tags).Count of owner %d = %d, linked tags (live and marked) %d", o, n, w)
+				}
 			case "AssocFindPet":
 				var pets []SPet
 				if err := root.Model(&ow).Association("Pet").Find(&pets); err != nil {
@@ -1186,7 +1361,11 @@ func run(c *core.Ctx) {
 	case 2:
 		st = pred.Style{Case: true, Parens: true, Whitespace: true}
 	}
-	table := pred.RandTable(r, 8)
+	liveBase = 0
+	if r.Bool() {
+		liveBase = 2 * twinOff
+	}
+	table := shiftTable(pred.RandTable(r, 8))
 	load(table)
 	for k := 0; k < 8; k++ {
 		cc := genChain(r, st)
@@ -1200,7 +1379,7 @@ func run(c *core.Ctx) {
 			for _, rw := range table {
 				rows = append(rows, rw.String())
 			}
-			c.Violation(cc.path, map[string]interface{}{"chain": desc, "problems": problems, "live_rows": rows, "note": "every live row has a soft-deleted twin with id+100"})
+			c.Violation(cc.path, map[string]interface{}{"chain": desc, "problems": problems, "live_rows": rows, "note": layoutNote()})
 			load(table)
 			continue
 		}
@@ -1234,8 +1413,23 @@ func run(c *core.Ctx) {
 			c.Shape("assoc", p, d.owners, nlive, len(d.liveTags), len(d.livePet))
 		}
 	}
-	// deleting an owner together with selected relations (last: it consumes the graph)
-	if r.Bool() {
+	// writes that consume the graph come last: association-mode Clear / Delete / Replace ...
+	if r.Chance(1, 3) {
+		sig, call, problems, nontrivial := runAssocWrite(c, d)
+		if sig != "" {
+			c.Logf("ASSOC %s: %s", sig, call)
+			c.Inc("assoc_paths")
+			c.Inc("assoc_writes")
+			if len(problems) > 0 {
+				c.Violation(sig, map[string]interface{}{"call": call, "problems": problems, "graph": fmt.Sprintf("%+v", d),
+					"note": "children: live ids 1.., soft-deleted twins id+100 with the same owner; bosses 1,2 live, 101,102 soft-deleted"})
+			} else if nontrivial {
+				c.Inc("nontrivial_assoc_writes")
+				c.Shape("assocwrite", sig, d.owners)
+			}
+		}
+	} else {
+		// ... or deleting an owner together with selected relations, links of a soft-delete join model, a deleting hook
 		p := core.Pick(r, []string{"DeleteSelectItems", "UnscopedDeleteSelectItems", "UnscopedDeleteSelectPet", "DeleteSelectPet", "UnscopedDeleteSelectBoth",
 			"AssocDeleteMarks", "UnscopedAssocDeleteMarks", "UnscopedAssocDeleteMarks", "UnscopedAssocClearMarks", "AssocClearMarks",
 			"HookDeletePropagate", "HookDeletePropagateNewDB", "HookDeleteNoPropagate"})
